@@ -294,6 +294,23 @@ func init() {
 			}
 			time.Sleep(2 * time.Millisecond)
 		})
+		// peers asking for the membership list while others announce themselves (Discover reads and signs the
+		// whole peer table, Announce / another Discover write it)
+		for k := 0; k < 2; k++ {
+			spawn(seed+80+int64(k), func(r *rand.Rand) {
+				wl, _ := wallet.New()
+				url := fmt.Sprintf("127.0.0.1:%d", 21000+r.Intn(1000))
+				now := uint64(time.Now().UnixNano())
+				msg := append(append([]byte(wl.Address()), []byte(url)...), le64(now)...)
+				d, sg := wl.Sign(msg)
+				if _, err := gsp.Server().Discover(ctx, &pb.ConnectionData{PublicAddress: wl.Address(), Url: url, CreatedAt: now, Digest: d[:], Signature: sg}); err == nil {
+					note("a.Discover.ok")
+				} else {
+					note("a.Discover.err")
+				}
+				time.Sleep(time.Millisecond)
+			})
+		}
 		// a peer that is far ahead: a vertex whose weight is beyond the truncation mark arrives by gossip, so
 		// the background truncation loop really fires (and writes its bookkeeping) while admissions go on
 		wg.Add(1)
